@@ -263,9 +263,9 @@ given a postcondition of the form *result == F(arguments)* for a spec function `
 
 `dedent` and `indent` are the other place where the device applies. U8 proves `indent(s, p) == indent_spec(s, p)` (C19's further clauses
 are lemmas over `indent_spec`), U9 proves of `dedent` a postcondition that determines the result from `str::lines(s)` and the margin length.
-With one std fact — `str::lines` is `lines_c`: the `'\\n'`-separated pieces, each terminated piece without one `'\\r'` directly before its `'\\n'`,
-the unterminated last piece as it is and dropped when empty (so, without carriage returns, `split_terminator('\\n')`: proved) — stated as an axiom and checked on the
-real `str::lines` by the bounded contract `A4.std_models`, and the proved split / join lemmas both units share
+With two std facts — `char::is_whitespace('\\r')` (used for prefixes that contain a carriage return) and `str::lines` is `lines_c`: the `'\\n'`-separated pieces, each terminated piece without one `'\\r'` directly before its `'\\n'`,
+the unterminated last piece as it is and dropped when empty (so, without carriage returns, `split_terminator('\\n')`: proved) — stated as axioms and checked on the
+real functions by the bounded contract `A4.std_models` —, and the proved split / join lemmas both units share
 (`prelude/split_chars.vrs`, `prelude/indent_spec.vrs`), C18's two corollaries become theorems (U9): `c18_dedent_idempotent_cr` (for *any* two
 results the contract allows for `s` and for the first result: they are equal — for every `s` satisfying `kf4_free`, i.e. outside known finding
 KF4's input class, carriage returns allowed; without that hypothesis the proof fails at exactly the step KF4 exploits; `c18_dedent_idempotent` is the
